@@ -41,8 +41,79 @@ def _interp(model, consts: Dict[str, Any]) -> RepoInterp:
             return v if isinstance(test.ops[0], ast.Eq) else (not v if isinstance(test.ops[0], ast.NotEq) else None)
         if isinstance(test, ast.Compare) and isinstance(test.ops[0], ast.Eq) and isinstance(test.comparators[0], ast.Constant) and test.comparators[0].value == 0.0:
             return False  # generic (non-zero) fit variable
+        if _tolerant(test):
+            return False  # reported by zero_guard_rule; the generic fit variable is far from zero
         return None
     return RepoInterp(model, decide=decide)
+
+
+def _tolerant(test: ast.AST) -> bool:
+    if isinstance(test, ast.Call) and dotted(test.func).split(".")[-1] in ("isclose", "allclose") and len(test.args) >= 2:
+        return True
+    if isinstance(test, ast.Compare) and isinstance(test.left, ast.Call) and dotted(test.left.func) in ("abs", "fabs") and isinstance(test.ops[0], (ast.Lt, ast.LtE)):
+        return True
+    return False
+
+
+def stateless_rule(ctx: Ctx, model, rid: str) -> None:
+    """No function of the linear KK pipeline reads or writes a module-level mutable container: the design matrix,
+    right-hand side and fitted circuit are functions of the call's arguments (a cache keyed on less than the whole grid
+    would hand one spectrum the matrix of another)."""
+    n = 0
+    for mod in (LS, MI, UT):
+        m = ctx.repo.modules[mod]
+        mutable = {}
+        for st in m.tree.body:
+            if isinstance(st, (ast.Assign, ast.AnnAssign)) and st.value is not None:
+                t = st.targets[0] if isinstance(st, ast.Assign) else st.target
+                if isinstance(t, ast.Name) and (isinstance(st.value, (ast.Dict, ast.List, ast.Set, ast.DictComp, ast.ListComp, ast.SetComp))
+                                                or (isinstance(st.value, ast.Call) and dotted(st.value.func).split(".")[-1] in ("dict", "list", "set", "defaultdict", "OrderedDict", "WeakKeyDictionary", "WeakValueDictionary"))):
+                    mutable[t.id] = st
+        for q, fi in sorted(model.funcs.items()):
+            if fi.module != mod:
+                continue
+            n += 1
+            deco = [norm(d) for d in fi.node.decorator_list]
+            bad = [d for d in deco if any(k in d for k in ("cache", "lru_cache", "memoize"))]
+            glob = [x for x in walk_ordered(fi.node) if isinstance(x, ast.Global)]
+            local = {a.arg for a in fi.node.args.args + fi.node.args.kwonlyargs} | {x.id for x in walk_ordered(fi.node) if isinstance(x, ast.Name) and isinstance(x.ctx, ast.Store)}
+            uses = [x for x in walk_ordered(fi.node) if isinstance(x, ast.Name) and x.id in mutable and x.id not in local]
+            if bad or glob or uses:
+                what = bad[0] if bad else (f"global {', '.join(glob[0].names)}" if glob else f"module-level container {uses[0].id}")
+                ctx.instance(rid, f"{fi.qual}: stateless")
+                ctx.violation(rid, f"{mod.split('.')[-1]}:{fi.qual}:module-state", mod, (uses[0] if uses else fi.node),
+                              f"{fi.qual} depends on {what}: its result is no longer a function of the frequencies/time constants/options it is called with")
+    ctx.instance(rid, f"{n} functions of least_squares/matrix_inversion/utility use no module-level mutable state or memoising decorator")
+    if n < 20:
+        raise AnalysisError(f"stateless rule: only {n} functions inspected")
+    ctx.ok()
+
+
+def zero_guard_rule(ctx: Ctx, model, rid: str, why: str) -> None:
+    """In _update_circuit a fitted coefficient may only be replaced by a stand-in constant when it is exactly zero
+    (`V == 0.0`): a tolerance (isclose, abs(V) < eps) replaces small but non-zero coefficients, so the circuit no longer
+    carries the fitted values and the threshold is a bare number in whatever unit the data happen to use."""
+    n = 0
+    for impl, mod in (("least_squares", LS), ("matrix_inversion", MI)):
+        upd = model.fi(mod, "_update_circuit")
+        for iff in [x for x in walk_ordered(upd.node) if isinstance(x, ast.If)]:
+            lits = [a for a in iff.body if isinstance(a, ast.Assign) and isinstance(a.targets[0], ast.Name)
+                    and ((isinstance(a.value, ast.Constant) and isinstance(a.value.value, (int, float))) or norm(a.value) in ("inf", "-inf"))]
+            if not lits:
+                continue
+            V = lits[0].targets[0].id
+            n += 1
+            ctx.instance(rid, f"{impl}._update_circuit: stand-in {V} = {norm(lits[0].value)} only under the exact guard {V} == 0.0")
+            t = iff.test
+            exact = isinstance(t, ast.Compare) and len(t.ops) == 1 and isinstance(t.ops[0], ast.Eq) and norm(t.left) == V \
+                and isinstance(t.comparators[0], ast.Constant) and t.comparators[0].value == 0
+            if exact:
+                ctx.ok()
+            else:
+                ctx.violation(rid, f"{impl}:_update_circuit:zero-guard:{V}", mod, iff,
+                              f"{impl}._update_circuit replaces the fitted coefficient {V} by {norm(lits[0].value)} under `{norm(t)}` instead of `{V} == 0.0`: {why}")
+    if n < 4:
+        raise AnalysisError(f"zero-guard rule: only {n} stand-in guards found in _update_circuit (floor 4, confirmed by reading)")
 
 
 def columns_of(model, fi, consts: Dict[str, Any]) -> Dict[str, Dict[str, sp.Expr]]:
@@ -200,6 +271,9 @@ def check(ctx: Ctx) -> None:
     ctx.rule("R7.2", "column terms and row blocks of every design-matrix builder, right-hand sides from the b-vector builder / the scaled X_exp expressions")
     ctx.rule("R7.3", "mapping terms: _update_circuit's variable → parameter map and the column order of the generators agree")
     ctx.rule("R7.4", "identity: block(X_model(ω; g(x))) ≡ Σ_j x_j · col_j(ω) in every configuration; both implementations agree; scaling is the same factor on both sides")
+    ctx.rule("R7.5", "the circuit carries the fitted coefficients: stand-in constants replace a coefficient only when it is exactly zero; the design matrix is a function of its arguments (no module-level state)")
+    zero_guard_rule(ctx, model, "R7.5", "a small non-zero coefficient (e.g. a 4 nF parallel capacitance) is silently discarded and the model no longer equals the fit")
+    stateless_rule(ctx, model, "R7.5")
     ctx.assumptions += ["one symbolic RC element stands for the k-th (columns are uniform in k)", "the design matrix has full column rank (conditioning is not decided)"]
     ctx.trusted += ["sympy simplify on rational functions of real symbols", "sa.terms interpreter"]
 
